@@ -415,6 +415,30 @@ pub fn run_c12(rep: &mut Report, rng: &mut Rng, thorough: bool) {
         let sig = format!("{}:n{}:pads{:?}", if is_xz { "xz" } else { "lzip" }, n, pads.iter().map(|p| p % 4).collect::<Vec<_>>());
         let detail = || json!({"format": if is_xz {"xz"} else {"lzip"}, "parts": names, "paddings": pads, "total_len": bytes.len(), "case": i});
         let cap = data.len() + 64;
+        // the same bytes delivered by a source that returns 1..6 bytes per read call (a pipe, a socket):
+        // the result must not depend on where the read boundaries fall (inside paddings, magic bytes, headers)
+        {
+            let grants: Vec<usize> = (0..bytes.len() + 8).map(|_| rng.range(1, 6) as usize).collect();
+            let src = crate::part::ShortReader { data: bytes.clone(), pos: 0, grants, gi: 0 };
+            let short = guard(|| {
+                if is_xz {
+                    let mut r = lzma_rust2::XZReader::new(src, true);
+                    read_all_sched(&mut r, &[4096], cap)
+                } else {
+                    let mut r = lzma_rust2::LZIPReader::new(src)?;
+                    read_all_sched(&mut r, &[4096], cap)
+                }
+            });
+            let whole = real_decode(if is_xz { "xz" } else { "lzip" }, true, &bytes, cap);
+            let same = match (&short, &whole) {
+                (Outcome::Ok(a), Outcome::Ok((b, _))) => a == b,
+                (Outcome::Err(k1, _), Outcome::Err(k2, _)) => k1 == k2,
+                _ => false,
+            };
+            if !same {
+                rep.fail(&format!("short-reads-change-result:{}", if is_xz { "xz" } else { "lzip" }), &format!("source delivering 1..6 bytes per call: {} ; contiguous source: {}", short.describe(), whole.describe()), detail());
+            }
+        }
         if is_xz {
             let o = real_decode("xz", true, &bytes, cap);
             rep.model(model_req("xz", true, &bytes, cap), canon(&o));
